@@ -24,9 +24,9 @@ META = {
         "technique": "Lean 4 theorems (hex codec lemmas) + differential correspondence check",
     },
     "C10": {
-        "text": "For every well-formed record stream and every truncation offset the segment reader returns an error or exactly the records wholly before the cut; every change of a record's payload (modulo a hash collision, an explicit hypothesis) or checksum yields an error: Lean theorems for all streams/offsets. " + _corr,
+        "text": "For every well-formed record stream and every truncation offset the segment reader returns an error or exactly the records wholly before the cut; every change of a record's payload (modulo a hash collision, an explicit hypothesis) or checksum yields an error: Lean theorems for all streams/offsets, at segment level and for the whole multi-segment replay. " + _corr,
         "design_ref": "DESIGN.md §7 C10",
-        "note": "Trusted: Lean kernel; checksum function abstract (32-byte output); collision-freeness hypothesis for changed payloads. Segment level; the multi-segment replay (log level) statement is part of the Store model.",
+        "note": "Trusted: Lean kernel; checksum function abstract (32-byte output); collision-freeness hypothesis for changed payloads. Segment level AND log level (C10_log_byte_change / C10_log_truncation: snapshot version + all segments in id order — the records before the damage are applied, nothing after it).",
         "technique": "Lean 4 theorems (induction over the record stream) + differential correspondence check on real segment files cut/flipped at every offset",
     },
     "C01": {
@@ -60,7 +60,7 @@ META = {
         "technique": "Lean 4 invariant proof over a record-level WAL state machine + differential correspondence incl. syscall traces",
     },
     "C03": {
-        "text": "Byte level (Lean theorems over Store.lean's event scripts, every state tied to the record-level machine, every cut position, every N / key kind): cut a commit's script after any number of filesystem events — recovery succeeds without panic and returns the old key map or the old one with exactly this operation (C03_commit_crash_atomic_bytes); cut the recovery itself anywhere and recover again: same alternative, tied again (C03_nested_crash_bytes); checkpoints and the whole put script likewise. Record level: after ANY prefix of ANY action sequence open yields the state after the records appended so far. " + _corr,
+        "text": "Byte level (Lean theorems over Store.lean's event scripts, every state tied to the record-level machine, every cut position, every N / key kind): cut a commit's script after any number of filesystem events — recovery succeeds without panic and returns the old key map or the old one with exactly this operation (C03_commit_crash_atomic_bytes); cut the recovery itself anywhere and recover again: same alternative, tied again (C03_nested_crash_bytes); checkpoints and the whole put script likewise; whole sessions (any sequence of logged operations, a kill inside any of them: C03_history_crash_atomic_bytes). Record level: after ANY prefix of ANY action sequence open yields the state after the records appended so far. " + _corr,
         "design_ref": "DESIGN.md §7 C03, §4 P3",
         "note": "Trusted: Lean kernel; process-kill crash model (calls atomic, completed calls persist); hand model; that the REAL syscall sequence is the script's: kill before every mutating call of a targeted operation, crash image reopened by real code and model; blob ordering (rename before record, unlink after) per script + trace.",
         "technique": "Lean 4 invariant proof (ghost history / recovery theorem) + crash-point enumeration differential check via LD_PRELOAD interposer",
@@ -114,15 +114,15 @@ META = {
         "technique": "Lean 4 classification theorems over arbitrary file trees + interleaving invariant for clean-up + differential checks on planted garbage, crash images and forced schedules",
     },
     "C09": {
-        "text": "Byte level (Lean theorems): power loss — any set of files loses everything after its last sync, directory operations persist in order — at ANY cut of a commit, of a whole put, or of a checkpoint leaves an image that recovery reads without panic as the old key map or the old one with exactly this operation (C09_commit/put/checkpoint_power_loss_bytes); scripts obey the sync discipline (a write to a WAL file is followed at once by its sync) and leave all WAL files fully synced; a committed blob is complete and synced before its record is written. " + _corr,
+        "text": "Byte level (Lean theorems): power loss — any set of files loses everything after its last sync, directory operations persist in order — at ANY cut of a commit, of a whole put, or of a checkpoint leaves an image that recovery reads without panic as the old key map or the old one with exactly this operation (C09_commit/put/checkpoint_power_loss_bytes), likewise during `open` itself and for power loss after power loss, any number of times (C09_open_power_loss_bytes, C09_repeated_power_loss_bytes); scripts obey the sync discipline (a write to a WAL file is followed at once by its sync) and leave all WAL files fully synced; a committed blob is complete and synced before its record is written. " + _corr,
         "design_ref": "DESIGN.md §7 C09",
-        "note": "Trusted: Lean kernel; the property's own loss model; fdatasync semantics; no real power loss can be run (loss images are rebuilt from the real syscall trace incl. sync events). Not covered by theorem: power loss during open, repeated power losses.",
+        "note": "Trusted: Lean kernel; the property's own loss model; fdatasync semantics; no real power loss can be run (loss images are rebuilt from the real syscall trace incl. sync events).",
         "technique": "Lean 4 theorems on sync ordering in event scripts + power-loss image reconstruction from traced syscalls",
     },
     "C14": {
-        "text": "Fault scripts (hand model of every error path) with theorems for all states and fault positions: the in-memory index after a failed put is the old or the fully-applied one, there is no panic outcome, and the blob of a put whose WAL append failed is never deleted by later operations. The rest of the property (later operations, reopen succeeds, keys old-or-new) is decided per run by injecting a failure at EVERY mutating call of targeted operations and comparing with the model and the property's oracle. " + _corr,
+        "text": "Byte level (Lean theorems over the fault scripts, a hand model of every error path): ONE failing call at ANY position of a put / remove / remove_range / checkpoint in any tied state, then ANY sequence of further operations of the same handle, then drop and reopen — no operation panics, memory is exactly the acknowledged operations applied to the old-or-new map, recovery and `open` succeed and per key return what the handle held or the failed operation's value, the reopened store is tied again (C14_put/remove/checkpoint_fault_contained, C14_*_fault_session_reopens); record level: the same for ANY number of failed appends, crashes and reopens (C14_failed_appends_contained); the blob of a put whose append failed is never deleted by later operations. That the fault scripts are the code's error paths is decided per run by injecting a failure at EVERY mutating call of targeted operations and comparing with the model and the property's oracle. " + _corr,
         "design_ref": "DESIGN.md §7 C14",
         "note": "Trusted: Lean kernel; Fault.lean hand-modelled error paths (BufWriter/Drop semantics read from std); interposer fail mode.",
-        "technique": "Lean 4 theorems over fault scripts + exhaustive single-fault injection per operation via LD_PRELOAD with differential comparison",
+        "technique": "Lean 4 theorems (WAL machine with failed appends, byte-level simulation of the fault and continuation scripts) + exhaustive single-fault injection per operation via LD_PRELOAD with differential comparison",
     },
 }
